@@ -114,4 +114,17 @@ example : parseDesc (printDesc { d := { sym := .lt, id := some 12, order := .sin
     .ok { d := { sym := .lt, id := some 12, order := .single, weight := 5 / 2, atom := 4 }, pre := [], num := 3 } := by
   decide +kernel
 
+/-- **C01 (mixture specifier, absolute mass, characters)**: the canonical text `.|m|` reads back as the mass `m` (through
+`strip(".|")`, `float`), for every non-negative mass whose printed form satisfies the decidable side condition `MixNumOK`
+(reads back as the number; no `|`, `%`, white space; neither starts nor ends with `.`) — also for masses that Python prints with
+a signed exponent (`2.5e-05`) -/
+theorem C01_mixture_abs_roundtrip (a : Rat) (rel : Option Rat) (h0 : 0 ≤ a) (hok : MixNumOK a) :
+    parseMixture (printMix { abs := some a, rel := rel } true) = .ok { abs := some a } :=
+  mixture_abs_roundtrip a rel h0 hok
+
+/-- **C01 (mixture specifier, percentage, characters)**: `.|p%|` reads back as the percentage `p`, 0 ≤ p ≤ 100 -/
+theorem C01_mixture_rel_roundtrip (r : Rat) (h0 : 0 ≤ r) (h100 : r ≤ 100) (hok : MixNumOK r) :
+    parseMixture (printMix { abs := none, rel := some r } true) = .ok { rel := some r } :=
+  mixture_rel_roundtrip r h0 h100 hok
+
 end GBS.P
